@@ -370,3 +370,356 @@ Proof.
   - destruct R as (R1 & _). destruct (werr_cases _ _ R1 Hnf) as (Hc & ->).
     destruct Hc as [->|[->|[->| ->]]]; reflexivity.
 Qed.
+
+(* ---- OpenFile: every flag combination ------------------------------------------------------------------------ *)
+Lemma om_facts (flag : N) :
+  (N.land flag 3 < 3)%N ->
+  let om := to_open_mode flag in
+  let acc := N.land flag 3 in
+  N.land om 7 = acc_mask acc false /\
+  N.land (N.lor om OpenWrite) 7 = acc_mask acc true /\
+  has om OpenCreate = has flag O_CREATE /\
+  has om OpenCreateExcl = has flag O_CREATE && has flag O_EXCL /\
+  has om OpenTruncate = has flag O_TRUNC /\
+  has om OpenAppend = has flag O_APPEND /\
+  has om OpenWrite = (N.eqb acc 1 || N.eqb acc 2).
+Proof.
+  intros Hacc. unfold to_open_mode. cbv zeta.
+  assert (Ha : (N.land flag 3 = 0 \/ N.land flag 3 = 1 \/ N.land flag 3 = 2)%N) by lia.
+  destruct Ha as [Ha|[Ha|Ha]]; rewrite Ha;
+    destruct (has flag O_CREATE), (has flag O_EXCL), (has flag O_APPEND), (has flag O_TRUNC);
+    vm_compute; repeat split; reflexivity.
+Qed.
+
+Lemma kwalk_pm_err : forall f h u root follow follow' cur (w : list str) (cl : str) cnt,
+  good_comp cl ->
+  (exists e, kwalk f h u root true follow cur (w ++ [cl]) cnt false = WErr e
+             /\ kwalk f h u root false follow' cur (w ++ [cl]) cnt false = WErr e)
+  \/ (exists par, kwalk f h u root true follow cur (w ++ [cl]) cnt false = WParent par LNorm cl false).
+Proof.
+  induction f as [|f IH]; intros h u root follow follow' cur w cl cnt Hcl; [left; exists EFUEL; split; reflexivity|].
+  destruct (good_comp_kind _ Hcl) as (K1 & K2).
+  rewrite !kwalk_S. destruct w as [|c w]; cbn [app].
+  - destruct (node_is_dir h cur); cbn [negb]; [|left; eauto].
+    destruct (kperm h cur 1 u); cbn [negb]; [|left; eauto].
+    cbv zeta. cbn [is_nil andb]. rewrite K1, K2. right. eauto.
+  - assert (Hnl : is_nil (w ++ [cl]) = false) by (destruct w; reflexivity).
+    destruct (node_is_dir h cur); cbn [negb]; [|left; eauto].
+    destruct (kperm h cur 1 u); cbn [negb]; [|left; eauto].
+    cbv zeta. rewrite Hnl. cbn [andb negb orb].
+    destruct (str_eqb c DOTS); [apply IH; exact Hcl|].
+    destruct (str_eqb c DOTDOTS); [apply IH; exact Hcl|].
+    destruct (alookup str_eqb c (children h cur)) as [n|]; [|left; eauto].
+    destruct (get h n) as [[ch m|dt k i m|t m]|]; [| | |left; eauto].
+    + apply IH; exact Hcl.
+    + left; eauto.
+    + destruct (Nat.leb MAXSYMLINKS cnt); [left; eauto|].
+      destruct (is_nil t); [left; eauto|].
+      rewrite app_assoc. apply IH; exact Hcl.
+Qed.
+
+Lemma klookup_pm_err (s : fsys) (sv : sview) (follow follow' : bool) (w : list str) (cl : str) :
+  Forall good_comp (w ++ [cl]) ->
+  (exists e, klookup s sv true follow (abs_path (w ++ [cl])) = WErr e
+             /\ klookup s sv false follow' (abs_path (w ++ [cl])) = WErr e)
+  \/ (exists par, klookup s sv true follow (abs_path (w ++ [cl])) = WParent par LNorm cl false).
+Proof.
+  intros Hg. rewrite !(klookup_abs_path s sv _ _ (w ++ [cl]) Hg).
+  assert (E : match w ++ [cl] with [] => true | _ => false end = false) by (destruct w; reflexivity).
+  rewrite E. apply kwalk_pm_err. apply Forall_app in Hg as (_ & Hg). inversion Hg; assumption.
+Qed.
+
+Definition open_sim (a : fsys * (res + handle)) (b : fsys * (N + nat)) : Prop :=
+  fst a = fst b /\ match snd a, snd b with
+                   | inl r, inl e => proj_res Linux r = SErr e
+                   | inr f, inr c => hd_node f = Some c
+                   | _, _ => False
+                   end.
+
+Lemma upd_same (h : heap) (c : nat) (n : node) : get h c = Some n -> upd h c n = h.
+Proof.
+  revert c. induction h as [|x h IH]; intros [|c] H; cbn in *; try discriminate.
+  - injection H as <-. reflexivity.
+  - rewrite (IH c H). reflexivity.
+Qed.
+
+Lemma with_heap_same (s : fsys) : with_heap s (f_heap s) = s.
+Proof. destruct s. reflexivity. Qed.
+
+
+(* the two "open an existing object" procedures, named *)
+Definition oe_impl (s : fsys) (v : view) (vi : nat) (name : str) (om : N) (c : nat) : fsys * (res + handle) :=
+  let h := f_heap s in
+  match get h c with
+  | Some (NFile d k i m) =>
+      if negb (check_permission m (if has om OpenTruncate then N.lor om OpenWrite else om) (v_user v))
+      then (s, inl (RFail EPermDenied))
+      else if has om OpenCreateExcl then (s, inl (RFail EFileExists))
+      else
+        let d1 := if has om OpenTruncate then [] else d in
+        let at_ := if has om OpenAppend then Z.of_nat (length d1) else 0%Z in
+        (with_heap s (upd h c (NFile d1 k i m)), inr (new_handle c vi name at_ om))
+  | Some (NDir _ m) =>
+      if has om OpenCreateExcl then (s, inl (RFail EFileExists))
+      else if has om OpenWrite || has om OpenCreate || has om OpenTruncate then (s, inl (RFail EIsADirectory))
+      else if negb (check_permission m om (v_user v)) then (s, inl (RFail EPermDenied))
+      else (s, inr (new_handle c vi name 0 om))
+  | _ => (s, inr (new_handle c vi name 0 om))
+  end.
+
+Definition oe_spec (u : user) (creat trunc : bool) (mask : N) (s0 : fsys) (c : nat) (created : bool) : fsys * (N + nat) :=
+  let wants_write := negb (N.eqb (N.land mask 2) 0) in
+  let h0 := f_heap s0 in
+  match get h0 c with
+  | Some (NDir _ _) =>
+      if creat then (s0, inl EISDIR)
+      else if wants_write then (s0, inl EISDIR)
+      else if negb (kperm h0 c mask u) then (s0, inl EACCES)
+      else (s0, inr c)
+  | Some (NFile d k i m) =>
+      if negb created && negb (kperm h0 c mask u) then (s0, inl EACCES)
+      else if trunc && negb created then (with_heap s0 (upd h0 c (NFile [] k i (drop_privs u m))), inr c)
+      else (s0, inr c)
+  | _ => (s0, inl ELOOP)
+  end.
+
+Lemma open_file_eq (s : fsys) (v : view) (vi : nat) (x : N) (name : str) (flag perm : N) :
+  open_file s v vi (x :: name) flag perm =
+  let name := x :: name in
+  let om := to_open_mode flag in
+  let r := search_node s v name (if has om OpenCreateExcl then SlLstat else SlEval) in
+  let e := sr_err r in
+  if (negb (is_file_exists e) && negb (is_not_exist e)) || negb (pi_is_last (sr_pi r)) then (s, inl (RFail e))
+  else if is_file_exists e && has om OpenCreateExcl
+          && match sr_child r with
+             | Some c => match get (f_heap s) c with Some (NSym _ _) => true | _ => false end
+             | None => false
+             end
+  then (s, inl (RFail e))
+  else
+    let h := f_heap s in
+    if is_not_exist e then
+      if negb (has om OpenCreate) then (s, inl (RFail e))
+      else match sr_parent r with
+           | None => (s, inl RPanic)
+           | Some parent =>
+               if negb (perm_on h parent (N.lor OpenWrite OpenLookup) (v_user v))
+               then (s, inl (RFail EPermDenied))
+               else
+                 let part := pi_part (sr_pi r) in
+                 match alookup str_eqb part (children h parent) with
+                 | None =>
+                     let '(s1, c) := create_file s v parent part perm in
+                     (s1, inr (new_handle c vi name 0 om))
+                 | Some c => oe_impl s v vi name om c
+                 end
+           end
+    else match sr_child r with
+         | Some c => oe_impl s v vi name om c
+         | None => (s, inl RPanic)
+         end.
+Proof. reflexivity. Qed.
+
+Lemma k_open_eq (s : fsys) (sv : sview) (p : str) (flag perm : N) :
+  k_open s sv p flag perm =
+  let v := sv_view sv in
+  let acc := N.land flag 3 in
+  let creat := has flag O_CREATE in
+  let excl := has flag O_EXCL in
+  let trunc := has flag O_TRUNC in
+  let h := f_heap s in
+  let u := v_user v in
+  let mask := acc_mask acc trunc in
+  if creat then
+    match klookup s sv true false p with
+    | WErr e => (s, inl e)
+    | WParent par k name mustdir =>
+        match k with
+        | LNorm =>
+            if mustdir then (s, inl EISDIR)
+            else
+              match klookup s sv false (negb excl) p with
+              | WErr e => (s, inl e)
+              | WNode _ _ _ c => if excl then (s, inl EEXIST) else oe_spec u creat trunc mask s c false
+              | WNeg par' name' _ =>
+                  if negb (kperm h par' 3 u) then (s, inl EACCES)
+                  else
+                    let bits := N.land perm FILE_MODE_MASK in
+                    let '(s1, c) := alloc_child s par' name'
+                                      (NFile [] 1 (f_last_id s + 1) (kmeta h par' v 0 bits false)) true in
+                    (s1, inr c)
+              | _ => (s, inl EFUEL)
+              end
+        | _ =>
+            match klookup s sv false true p with
+            | WErr e => (s, inl e)
+            | WNode _ _ _ c => if excl then (s, inl EEXIST) else (s, inl EISDIR)
+            | _ => (s, inl EISDIR)
+            end
+        end
+    | _ => (s, inl EFUEL)
+    end
+  else
+    match klookup s sv false true p with
+    | WErr e => (s, inl e)
+    | WNeg _ _ _ => (s, inl ENOENT)
+    | WNode _ _ _ c => oe_spec u creat trunc mask s c false
+    | _ => (s, inl EFUEL)
+    end.
+Proof. reflexivity. Qed.
+
+(* opening an existing object: the access check by open mode, O_TRUNC needs write permission, a directory
+   opens read-only *)
+Lemma oe_sim (s : fsys) (v : view) (vi : nat) (name : str) (flag : N) (c : nat) :
+  (N.land flag 3 < 3)%N -> get (f_heap s) c <> None -> (forall t m, get (f_heap s) c <> Some (NSym t m)) ->
+  has flag O_CREATE && has flag O_EXCL = false ->
+  (has flag O_TRUNC = true -> forall d k i m, get (f_heap s) c = Some (NFile d k i m) -> privs_kept (v_user v) m) ->
+  open_sim (oe_impl s v vi name (to_open_mode flag) c)
+           (oe_spec (v_user v) (has flag O_CREATE) (has flag O_TRUNC) (acc_mask (N.land flag 3) (has flag O_TRUNC)) s c false).
+Proof.
+  intros Hacc Hv Hns Hex Hpk.
+  destruct (om_facts flag Hacc) as (M1 & M2 & M3 & M4 & M5 & M6 & M7). cbv zeta in *.
+  unfold oe_impl, oe_spec. cbv zeta. rewrite M4, Hex, M5, M3, M7.
+  destruct (get (f_heap s) c) as [[ch m|d k i m|t m]|] eqn:Hg; [| |exfalso; exact (Hns t m eq_refl)|congruence].
+  - (* a directory *)
+    destruct (has flag O_CREATE); [rewrite orb_true_r; split; reflexivity|]. rewrite orb_false_r.
+    assert (Hw : negb (N.eqb (N.land (acc_mask (N.land flag 3) (has flag O_TRUNC)) 2) 0)
+                 = (N.eqb (N.land flag 3) 1 || N.eqb (N.land flag 3) 2) || has flag O_TRUNC).
+    { assert (Ha : (N.land flag 3 = 0 \/ N.land flag 3 = 1 \/ N.land flag 3 = 2)%N) by lia.
+      destruct Ha as [Ha|[Ha|Ha]]; rewrite Ha; destruct (has flag O_TRUNC); reflexivity. }
+    rewrite Hw. destruct ((N.eqb (N.land flag 3) 1 || N.eqb (N.land flag 3) 2) || has flag O_TRUNC) eqn:Hww; [split; reflexivity|].
+    apply orb_false_iff in Hww as (_ & Htr). rewrite Htr.
+    rewrite (check_permission_node _ _ _ (to_open_mode flag) _ Hg), M1.
+    destruct (kperm (f_heap s) c (acc_mask (N.land flag 3) false) (v_user v)); split; reflexivity.
+  - (* a regular file *)
+    cbn [negb andb]. rewrite (check_permission_node _ _ _ _ _ Hg).
+    destruct (has flag O_TRUNC) eqn:Htr.
+    + rewrite M2. destruct (kperm (f_heap s) c (acc_mask (N.land flag 3) true) (v_user v)); cbn [negb]; [|split; reflexivity].
+      cbn [andb]. rewrite (Hpk eq_refl _ _ _ _ eq_refl). split; reflexivity.
+    + rewrite M1. destruct (kperm (f_heap s) c (acc_mask (N.land flag 3) false) (v_user v)); cbn [negb]; [|split; reflexivity].
+      cbn [andb]. rewrite (upd_same _ _ _ Hg), with_heap_same. split; reflexivity.
+Qed.
+
+(* the failing walk: same errno *)
+Lemma open_walk_err (s : fsys) (sv : sview) (vi : nat) (cs : list str) (flag perm : N) (slm : slmode) (e : N) (X : fsys * (res + handle)) :
+  let r := search_node s (sv_view sv) (abs_path cs) slm in
+  walk_err_rel (sr_err r) e /\ (true = true -> sr_err r = ENoSuchDir -> pi_is_last (sr_pi r) = false) ->
+  sr_err r <> EFuel ->
+  open_sim (if (negb (is_file_exists (sr_err r)) && negb (is_not_exist (sr_err r))) || negb (pi_is_last (sr_pi r))
+            then (s, inl (RFail (sr_err r))) else X)
+           (s, inl e).
+Proof.
+  intros r (R1 & R2) Hnf. destruct (werr_cases _ _ R1 Hnf) as (Hc & ->).
+  destruct Hc as [Hc|[Hc|[Hc|Hc]]]; rewrite Hc in *; cbn [is_file_exists is_not_exist negb andb orb]; try (split; reflexivity).
+  rewrite (R2 eq_refl eq_refl). split; reflexivity.
+Qed.
+
+Theorem dstep_open_nocreat (s : fsys) (sv : sview) (cs : list str) (flag perm : N) (vi : nat) :
+  dac_hyps s sv -> path_ok s sv SlEval cs -> (N.land flag 3 < 3)%N -> has flag O_CREATE = false ->
+  (has flag O_TRUNC = true -> file_privs_kept s sv cs) ->
+  open_sim (open_file s (sv_view sv) vi (abs_path cs) flag perm) (k_open s sv (abs_path cs) flag perm).
+Proof.
+  intros H Hp Hacc Hcr Hpk. pose proof (dresolve s sv SlEval cs H Hp) as R. destruct Hp as (Hg & _ & _ & Hnf).
+  destruct (om_facts flag Hacc) as (M1 & M2 & M3 & M4 & M5 & M6 & M7). cbv zeta in *.
+  rewrite Hcr in M3, M4. cbn [andb] in M4.
+  unfold abs_path at 1. rewrite open_file_eq. fold (abs_path cs). rewrite k_open_eq. cbv zeta.
+  rewrite M4, M3, Hcr. cbv iota.
+  change (follow_of SlEval) with true in R. change (precise_of SlEval) with true in R.
+  pose proof (dresolve_nosym s sv SlEval cs) as Hns.
+  destruct (klookup s sv false true (abs_path cs)) as [par kind name n|par name md| |e] eqn:HK; cbn [walk_rel] in R.
+  - destruct R as (R1 & R2 & R3 & _ & R4 & _). rewrite R1, R2, (R4 eq_refl). cbn [is_file_exists is_not_exist negb andb orb].
+    rewrite <- Hcr at 1. apply oe_sim; [exact Hacc|exact R3|exact (Hns n H eq_refl R1 R2)|rewrite Hcr; reflexivity|].
+    intros Htr d k i m Hgm. exact (Hpk Htr _ _ _ _ _ _ _ _ HK Hgm).
+  - destruct R as (R1 & R2 & R3 & R4). destruct (at_name_views _ _ _ _ _ _ (R4 eq_refl)) as (V1 & V2 & _).
+    rewrite R1, V2. cbn [is_file_exists is_not_exist negb andb orb]. split; reflexivity.
+  - destruct R.
+  - apply (open_walk_err s sv vi cs flag perm SlEval e); assumption.
+Qed.
+
+(* the parent of a file created through a following walk has its set-group-id bit clear *)
+Definition no_setgid_parent_follow (s : fsys) (sv : sview) (cs : list str) : Prop :=
+  forall par name md, klookup s sv false true (abs_path cs) = WNeg par name md ->
+                      is_setgid (m_mode (meta_of (f_heap s) par)) = false.
+
+Lemma create_file_alloc (s : fsys) (sv : sview) (vi : nat) (par : nat) (name nm : str) (perm om : N) :
+  v_os (sv_view sv) = Linux -> is_setgid (m_mode (meta_of (f_heap s) par)) = false ->
+  open_sim (let '(s1, c) := create_file s (sv_view sv) par name perm in (s1, inr (new_handle c vi nm 0 om)))
+           (let '(s1, c) := alloc_child s par name
+                              (NFile [] 1 (f_last_id s + 1)
+                                 (kmeta (f_heap s) par (sv_view sv) 0 (N.land perm FILE_MODE_MASK) false)) true in
+            (s1, inr c)).
+Proof.
+  intros Hos Hsg. unfold create_file, alloc_child, kmeta, new_meta, new_owner_gid. rewrite Hsg, Hos.
+  cbn [file_mode andb]. split; reflexivity.
+Qed.
+
+(* O_CREAT without O_EXCL: a final symbolic link is followed; an existing object is opened as above; a missing
+   one is created in its directory: write + search permission there (EACCES), owner, group, mode & ~umask *)
+Theorem dstep_open_creat (s : fsys) (sv : sview) (w : list str) (cl : str) (flag perm : N) (vi : nat) :
+  dac_hyps s sv -> path_ok s sv SlEval (w ++ [cl]) -> (N.land flag 3 < 3)%N ->
+  has flag O_CREATE = true -> has flag O_EXCL = false ->
+  (has flag O_TRUNC = true -> file_privs_kept s sv (w ++ [cl])) -> no_setgid_parent_follow s sv (w ++ [cl]) ->
+  let p := abs_path (w ++ [cl]) in
+  open_sim (open_file s (sv_view sv) vi p flag perm) (k_open s sv p flag perm).
+Proof.
+  intros H Hp Hacc Hcr Hex Hpk Hsg p. pose proof (dresolve s sv SlEval (w ++ [cl]) H Hp) as R. destruct Hp as (Hg & _ & _ & Hnf).
+  destruct (om_facts flag Hacc) as (M1 & M2 & M3 & M4 & M5 & M6 & M7). cbv zeta in *.
+  rewrite Hcr in M3. rewrite Hcr, Hex in M4. cbn [andb] in M4.
+  unfold p. unfold abs_path at 1. rewrite open_file_eq. fold (abs_path (w ++ [cl])). rewrite k_open_eq. cbv zeta.
+  rewrite M4, M3, Hcr, Hex. cbv iota. cbn [negb].
+  change (follow_of SlEval) with true in R. change (precise_of SlEval) with true in R.
+  pose proof (dresolve_nosym s sv SlEval (w ++ [cl])) as Hns.
+  pose proof (klookup_final s sv true (w ++ [cl]) Hg) as Hfin.
+  destruct (klookup_pm_err s sv false true w cl Hg) as [(e & P1 & P2)|(par0 & P1)]; rewrite P1.
+  - rewrite P2 in R. cbn [walk_rel] in R. apply (open_walk_err s sv vi (w ++ [cl]) flag perm SlEval e); assumption.
+  - cbv iota.
+    destruct (klookup s sv false true (abs_path (w ++ [cl]))) as [par kind name n|par name md| |e] eqn:HK; cbn [walk_rel] in R.
+    + destruct R as (R1 & R2 & R3 & _ & R4 & _). rewrite R1, R2, (R4 eq_refl). cbn [is_file_exists is_not_exist negb andb orb].
+      rewrite <- Hcr at 1. apply oe_sim; [exact Hacc|exact R3|exact (Hns n H eq_refl R1 R2)|rewrite Hex; apply andb_false_r|].
+      intros Htr d k i m Hgm. exact (Hpk Htr _ _ _ _ _ _ _ _ HK Hgm).
+    + destruct R as (R1 & R2 & R3 & R4). destruct (at_name_views _ _ _ _ _ _ (R4 eq_refl)) as (V1 & V2 & _).
+      destruct Hfin as (F1 & _).
+      rewrite R1, V2, R3, V1, F1. cbn [is_file_exists is_not_exist negb andb orb].
+      rewrite perm_on_write_lookup. destruct (kperm (f_heap s) par 3 (v_user (sv_view sv))); cbn [negb]; [|split; reflexivity].
+      apply create_file_alloc; [exact (dh_os _ _ H)|exact (Hsg _ _ _ HK)].
+    + destruct R.
+    + apply (open_walk_err s sv vi (w ++ [cl]) flag perm SlEval e); assumption.
+Qed.
+
+(* O_CREAT|O_EXCL: the final component is not followed; anything there is EEXIST.  MemFS tests the access
+   permission of an existing regular file first (EACCES before EEXIST: listed as errno priority) *)
+Definition excl_existing_accessible (s : fsys) (sv : sview) (cs : list str) (flag : N) : Prop :=
+  forall par kind name n d k i m, klookup s sv false false (abs_path cs) = WNode par kind name n ->
+    get (f_heap s) n = Some (NFile d k i m) ->
+    kperm (f_heap s) n (acc_mask (N.land flag 3) (has flag O_TRUNC)) (v_user (sv_view sv)) = true.
+
+Theorem dstep_open_excl (s : fsys) (sv : sview) (w : list str) (cl : str) (flag perm : N) (vi : nat) :
+  dac_hyps s sv -> path_ok s sv SlLstat (w ++ [cl]) -> (N.land flag 3 < 3)%N ->
+  has flag O_CREATE = true -> has flag O_EXCL = true ->
+  excl_existing_accessible s sv (w ++ [cl]) flag -> no_setgid_parent s sv (w ++ [cl]) ->
+  let p := abs_path (w ++ [cl]) in
+  open_sim (open_file s (sv_view sv) vi p flag perm) (k_open s sv p flag perm).
+Proof.
+  intros H Hp Hacc Hcr Hex Hea Hsg p. pose proof (dresolve s sv SlLstat (w ++ [cl]) H Hp) as R.
+  destruct Hp as (Hg & Hk1 & _ & Hnf).
+  destruct (om_facts flag Hacc) as (M1 & M2 & M3 & M4 & M5 & M6 & M7). cbv zeta in *.
+  rewrite Hcr in M3. rewrite Hcr, Hex in M4. cbn [andb] in M4.
+  change (follow_of SlLstat) with false in R, Hk1. change (precise_of SlLstat) with true in R.
+  destruct (klookup_pm s sv false w cl Hg Hk1) as (Hkn & Hkg & Hpm).
+  unfold p. unfold abs_path at 1. rewrite open_file_eq. fold (abs_path (w ++ [cl])). rewrite k_open_eq. cbv zeta.
+  rewrite M4, M3, Hcr, Hex, Hpm. cbv iota. cbn [negb].
+  pose proof (klookup_final s sv false (w ++ [cl]) Hg) as Hfin.
+  destruct (klookup s sv false false (abs_path (w ++ [cl]))) as [par kind name n|par name md| |e] eqn:HK; cbn [walk_rel] in R.
+  - destruct R as (R1 & R2 & R3 & _ & R4 & _). rewrite R1, R2, (R4 eq_refl). cbn [is_file_exists is_not_exist negb andb orb].
+    unfold oe_impl. cbv zeta. rewrite M4, M5.
+    destruct (get (f_heap s) n) as [[ch m|d k i m|t m]|] eqn:Hgn; [split; reflexivity| |split; reflexivity|congruence].
+    rewrite (check_permission_node _ _ _ _ _ Hgn). pose proof (Hea _ _ _ _ _ _ _ _ HK Hgn) as Hk.
+    destruct (has flag O_TRUNC); [rewrite M2|rewrite M1]; rewrite Hk; split; reflexivity.
+  - pose proof (Hkg _ _ _ eq_refl) as ->. destruct Hfin as (F1 & _).
+    destruct R as (R1 & R2 & R3 & R4). destruct (at_name_views _ _ _ _ _ _ (R4 eq_refl)) as (V1 & V2 & _).
+    rewrite R1, V2, R3, V1, F1. cbn [is_file_exists is_not_exist negb andb orb].
+    rewrite perm_on_write_lookup. destruct (kperm (f_heap s) par 3 (v_user (sv_view sv))); cbn [negb]; [|split; reflexivity].
+    apply create_file_alloc; [exact (dh_os _ _ H)|exact (Hsg _ _ _ HK)].
+  - destruct R.
+  - apply (open_walk_err s sv vi (w ++ [cl]) flag perm SlLstat e); assumption.
+Qed.
